@@ -32,6 +32,9 @@ Why(T, r) ==
         ELSE IF i <= Len(got) /\ got[i] = 0 - 2 THEN "node-twice"
         ELSE IF i > Len(exp) THEN "extra:" \o T[got[i]].k
         ELSE IF i <= Len(got) /\ got[i] > 0 /\ got[i] < exp[i] THEN "order:" \o T[got[i]].k
+        \* the expected node does come, but later: the nodes are not in source order
+        ELSE IF \E j \in (i + 1) .. Len(got) : got[j] = exp[i] THEN "order:" \o T[exp[i]].k
+        ELSE IF T[exp[i]].par = 0 THEN "missing:root"
         ELSE "missing:" \o T[T[exp[i]].par].k \o "/" \o T[exp[i]].slot
 
 \* a partial walk against the full walk from the same root
